@@ -112,9 +112,9 @@ func init() {
 		return clusterCheckSched(prop, tier, p, []string{"leader_present", "op_acked", "config_changed"}, untimedAssumptions, []string{"C01", "C02", "C07"}, sp)
 	}
 	checks["C16"] = func(prop, tier string) int {
-		p := []plan{{"sticky3r0-d2", 50}, {"sticky3r1-d2", 50}, {"sticky3r2-d2", 50}, {"rejoin3r0-d3", 30}, {"rejoin3r1-d2", 30}, {"rejoin3r2-d2", 30}, {"stickysnap3-d3", 30}, {"contested3r0-d2", 30}}
+		p := []plan{{"sticky3r0-d2", 50}, {"sticky3r1-d2", 50}, {"sticky3r2-d2", 50}, {"rejoin3r0-d3", 30}, {"rejoin3r1-d2", 30}, {"rejoin3r2-d2", 30}, {"stickysnap3-d3", 30}, {"contested3r0-d2", 30}, {"removed3-d3", 30}}
 		if tier == "thorough" {
-			p = []plan{{"sticky3r0-d3", 400}, {"sticky3r1-d3", 400}, {"sticky3r2-d3", 400}, {"rejoin3r0-d4", 400}, {"rejoin3r1-d4", 400}, {"rejoin3r2-d4", 400}, {"stickysnap3-d4", 300}, {"contested3r0-d3", 200}, {"contested3r1-d3", 200}, {"contested3r2-d3", 200}}
+			p = []plan{{"sticky3r0-d3", 400}, {"sticky3r1-d3", 400}, {"sticky3r2-d3", 400}, {"rejoin3r0-d4", 400}, {"rejoin3r1-d4", 400}, {"rejoin3r2-d4", 400}, {"stickysnap3-d4", 300}, {"contested3r0-d3", 200}, {"contested3r1-d3", 200}, {"contested3r2-d3", 200}, {"removed3-d4", 200}}
 		}
 		return clusterCheck(prop, tier, p, []string{"leader_present", "minority_campaigned", "node_down"}, []string{
 			"timed mode: global clock in heartbeat intervals (election timeout 6, lease 2), messages are delivered within the interval unless a link is cut; election timeouts staggered per node, all rotations enumerated",
